@@ -69,7 +69,7 @@ def gen_desc(ch, profile="conservative", min_params=1, max_params=5, label="desc
         doc = ch.choice("%s.p%d.doc" % (label, i), PROSE).format(n=ch.choice("%s.p%d.noun" % (label, i), NOUNS))
         params.append({"name": name, "typ": typ, "doc": doc, "default": d})
     returns = None
-    if ch.chance(label + ".ret", 0.12):
+    if ch.chance(label + ".ret", 0.06):
         rtyp = ch.choice(label + ".ret.typ", ["int", "str", "float", "bool"])
         # steering (DESIGN §7.2): a return entry without default expression trips a known emitter defect (F04)
         rdef = gen_default(ch, rtyp, label + ".ret.def") if ch.chance(label + ".ret.hasdef", 0.9) else None
